@@ -540,6 +540,47 @@ example : detectLoopEv [vb!"v1", vb!"v2"] vb!"/x" vb!"v=v9"
       [(.header vb!"X-V", .header vb!"v7"), (.query vb!"v", .query true vb!"v9"), (.custom 1, .custom vb!"v2")] =
     [.invalid vb!"v7", .invalid vb!"v9", .detected vb!"v2" vb!"custom"] := by decide
 
+/-! ### lifecycle options: `r.Version(v, opts…)` and `vr.Configure(opts…)` -/
+
+/-- `r.Version(v)` without options registers no lifecycle (and never touches one that is registered) -/
+theorem version_without_options_registers_nothing (s : LSt) (id : Nat) (ver : Bytes) :
+    (s.step (.version id ver [])).engine = s.engine := by
+  simp [LSt.step]
+
+/-- `r.Version(v, opts…)` registers a FRESH configuration built from the options alone -/
+theorem version_with_options_is_fresh (s : LSt) (id : Nat) (ver : Bytes) (opts : List LOpt) (h : opts ≠ []) :
+    (s.step (.version id ver opts)).engine = s.engine ++ [(ver, id)] ∧
+    (s.step (.version id ver opts)).vrs.lookup id = some (ver, some (opts.foldl applyLOpt LC.zero)) := by
+  simp [LSt.step, h, List.lookup]
+
+/-- `vr.Configure(opts…)` applies the options ON TOP of what the object already holds and registers the object
+    (again) for its version -/
+theorem configure_merges (s : LSt) (id : Nat) (ver : Bytes) (lc : Option LC) (opts : List LOpt) (h : opts ≠ [])
+    (hv : s.vrs.lookup id = some (ver, lc)) :
+    (s.step (.configure id opts)).engine = s.engine ++ [(ver, id)] ∧
+    (s.step (.configure id opts)).vrs.lookup id = some (ver, some (opts.foldl applyLOpt (lc.getD LC.zero))) := by
+  simp [LSt.step, h, hv, List.lookup]
+
+/-- options only ever switch on / overwrite: once deprecated always deprecated, the last `Sunset` / `MigrationDocs` counts -/
+theorem lifecycle_options_monotone (lc : LC) (o : LOpt) :
+    (lc.deprecated = true → (applyLOpt lc o).deprecated = true) ∧
+    (∀ s, o = .sunset s → (applyLOpt lc o).sunset = some s) ∧
+    (∀ u, o = .migration u → (applyLOpt lc o).migration = u) ∧
+    ((applyLOpt lc .deprecatedSince).deprecated = true) := by
+  refine ⟨?_, ?_, ?_, rfl⟩
+  · intro h; cases o <;> simp [applyLOpt, h]
+  · rintro s rfl; rfl
+  · rintro u rfl; rfl
+
+/-- not vacuous, and the surprising case: an OLDER object for the version that is configured once more after a newer
+    one was registered replaces the newer one's lifecycle (the engine holds the pointer that was set last) -/
+example :
+    getLifecycle (lifecyclesOf [.version 1 vb!"v1" [.migration vb!"old"], .version 2 vb!"v1" [.deprecated, .sunset (5, [], [])],
+                                .configure 1 [.successor]]) vb!"v1" =
+      some { deprecated := false, sunset := none, migration := vb!"old" } ∧
+    getLifecycle (lifecyclesOf [.version 1 vb!"v1" [], .configure 1 [.sunset (3, [], [])], .configure 1 [.deprecatedSince, .sunset (7, [], [])]])
+        vb!"v1" = some { deprecated := true, sunset := some (7, [], []), migration := [] } := by decide
+
 /-! ### the handler chain of a version-group route (app layer) -/
 
 section Chain
